@@ -38,13 +38,52 @@ def iteration_trace(aname, algo, env, pol, cb):
     return tr, it, S, out
 
 
-def replay_generic(tr, S, it, orc):
-    return lambda res: _rp(res, tr, S, it, orc)
+def replay_generic(tr, S, it, orc, real=None):
+    """replay on the model's inputs (uninterpreted functions bound to the model); when that replay cannot be carried out or does not reproduce,
+    `real(count)` runs the REAL public API end to end (reset() then iteration() from a state with the model's iteration count, generic concrete
+    environment, real PRNG) and evaluates the obligation's concrete predicate"""
+    def rp(res):
+        info = {}
+        try:
+            ok, info = _rp(res, tr, S, it, orc)
+            if ok:
+                return ok, info
+        except Exception as ex:  # noqa: BLE001
+            info = {"model_replay_error": repr(ex)[:300]}
+        if real is None:
+            return False, info
+        c = core.solve.num(res.value(S["st_iteration_count"][()]))
+        c = int(c) if c is not None and c >= 0 else 1
+        bad, rinfo = real(c)
+        rinfo["model_replay"] = str(info)[:300]
+        return bad, rinfo
+    return rp
 
 
 def _rp(res, tr, S, it, orc):
     with stubs.prng_stubs():
         return concrete.replay_outputs(tr, S, res, uf_apps=it.uf_apps, oracle=orc)
+
+
+def real_run(algo, env, pol, cb, count):
+    """the real reset() and one real iteration() from iteration count `count`, over a generic concrete interpretation of the environment"""
+    from jaxsmt.uf import GenericWorld, world
+    jax.clear_caches()
+    try:
+        with world(GenericWorld(seed=7)):
+            st = algo.reset(env, pol, key=jr.key(1), callback=cb)
+            st = eqx.tree_at(lambda s_: s_.iteration_count, st, jnp.asarray(count, st.iteration_count.dtype))
+            out = algo.iteration(st, key=jr.key(2), callback=cb)
+            out = jax.block_until_ready(out)
+    finally:
+        jax.clear_caches()
+    return st, out
+
+
+def leaves_equal(a, b, rtol=0.0, atol=0.0):
+    la = [x for x in jax.tree_util.tree_leaves(a) if eqx.is_array(x)]
+    lb = [x for x in jax.tree_util.tree_leaves(b) if eqx.is_array(x)]
+    return len(la) == len(lb) and all(np.allclose(np.asarray(x, np.float64), np.asarray(y, np.float64), rtol=rtol, atol=atol, equal_nan=True) for x, y in zip(la, lb))
 
 
 def count_transitions(it):
@@ -58,7 +97,8 @@ def check_counter_and_budget(ck):
         tr, it, S, out = iteration_trace(aname, algo, env, pol, cb)
         ck.encoded(tr)
         c0 = S["st_iteration_count"][()]
-        ck.prove(f"iter.counter_plus_one.{aname}", [], eq_elem(out["iteration_count"][()], c0 + 1), replay=replay_generic(tr, S, it, {"iteration_count": arr0(c0 + 1)}))
+        ck.prove(f"iter.counter_plus_one.{aname}", [], eq_elem(out["iteration_count"][()], c0 + 1), replay=replay_generic(tr, S, it, {"iteration_count": arr0(c0 + 1)},
+                 real=lambda c, algo=algo, env=env, pol=pol: (lambda st, out: (int(out.iteration_count) != c + 1, {"count_before": c, "count_after": int(out.iteration_count)}))(*real_run(algo, env, pol, cb, c))))
         n = count_transitions(it)
         want = algo.num_envs * algo.num_steps
         ck.fact(f"iter.steps_consumed.{aname}", n == want, f"{n} distinct environment transitions in one iteration; num_envs*num_steps = {want}")
@@ -218,7 +258,12 @@ def check_dqn_target(ck):
         big = [x for n in tnames for x in out["policy_" + n[len("target_policy_"):]].reshape(-1)]
         goal = conj([eq_arr(out[n], orc[n]) for n in tnames])
         gA, = core.abstract([goal], big) if not isinstance(goal, bool) else (goal,)
-        ck.prove(f"dqn.target_step@I={I}", A, gA, replay=replay_generic(tr, S, it, orc), timeout=120)
+        def real_dqn(c, algo=algo, pol=pol, I=I):
+            st, out = real_run(algo, envd, pol, cb, c)
+            want = out.policy if (c + 1) % I == 0 else st.target_policy
+            return (not leaves_equal(out.target_policy, want)), {"count_before": c, "interval": I, "target_equals_new_online": leaves_equal(out.target_policy, out.policy),
+                                                                    "target_unchanged": leaves_equal(out.target_policy, st.target_policy)}
+        ck.prove(f"dqn.target_step@I={I}", A, gA, replay=replay_generic(tr, S, it, orc, real=real_dqn), timeout=120)
         if I == 2:
             ck.witness("witness.dqn_no_update_reachable", A + [c1 % I != 0])
             wrong = conj([eq_arr(out[n], np.array([it.o.ite(c0 % I == 0, x, y) for x, y in zip(out["policy_" + n[len("target_policy_"):]].reshape(-1), S["st_" + n].reshape(-1))], dtype=object).reshape(S["st_" + n].shape)) for n in tnames])
@@ -268,9 +313,31 @@ def check_sac(ck):
                     online = out[q + "_" + n[len(q + "_target_"):]]
                     old = S["st_" + n]
                     orc[n] = np.array([o.add(o.mul(t_, x), o.mul(1 - t_, y)) for x, y in zip(online.reshape(-1), old.reshape(-1))], dtype=object).reshape(old.shape)
+        def real_polyak(c, algo=algo, pol=pol):
+            st, out = real_run(algo, envb, pol, cb, c)
+            bad = False
+            for q in ("qf1", "qf2"):
+                on = [x for x in jax.tree_util.tree_leaves(getattr(out, q)) if eqx.is_inexact_array(x)]
+                old = [x for x in jax.tree_util.tree_leaves(getattr(st, q + "_target")) if eqx.is_inexact_array(x)]
+                new = [x for x in jax.tree_util.tree_leaves(getattr(out, q + "_target")) if eqx.is_inexact_array(x)]
+                bad = bad or not all(np.allclose(np.asarray(n_), tau * np.asarray(o_) + (1 - tau) * np.asarray(t_), rtol=1e-4, atol=1e-6) for n_, o_, t_ in zip(new, on, old))
+            return bad, {"count_before": c, "tau": tau, "note": "target critics after the iteration are not tau*online_new + (1-tau)*target_old"}
+
+        def real_gate(c, algo=algo, pol=pol, f=f):
+            st, out = real_run(algo, envb, pol, cb, c)
+            same_actor = leaves_equal(out.policy, st.policy) and leaves_equal(out.opt_state, st.opt_state)
+            same_alpha = leaves_equal(out.log_alpha, st.log_alpha) and leaves_equal(out.alpha_opt_state, st.alpha_opt_state)
+            gate_closed = c % f != 0
+            return (gate_closed and not (same_actor and same_alpha)), {"count_before": c, "policy_frequency": f, "num_envs": algo.num_envs, "num_steps": algo.num_steps,
+                                                                           "actor_unchanged": same_actor, "temperature_unchanged": same_alpha}
+
+        def real_alpha(c, algo=algo, pol=pol):
+            st, out = real_run(algo, envb, pol, cb, c)
+            same_alpha = leaves_equal(out.log_alpha, st.log_alpha) and leaves_equal(out.alpha_opt_state, st.alpha_opt_state)
+            return (not same_alpha), {"count_before": c, "autotune": False, "temperature_unchanged": same_alpha}
         bigq = [x for n in orc for x in out[n.replace("_target", "")].reshape(-1)]
         goal = conj([eq_arr(out[n], v) for n, v in orc.items()])
-        ck.prove(f"sac.polyak_once@{cfg}", [c0 >= 0], core.abstract([goal], bigq)[0] if not isinstance(goal, bool) else goal, replay=replay_generic(tr, S, it, orc), timeout=120)
+        ck.prove(f"sac.polyak_once@{cfg}", [c0 >= 0], core.abstract([goal], bigq)[0] if not isinstance(goal, bool) else goal, replay=replay_generic(tr, S, it, orc, real=real_polyak), timeout=120)
         if f == 2 and autotune and E == 1:
             wrong = conj([eq_arr(out[n], np.array([o.add(o.mul(1 - t_, x), o.mul(t_, y)) for x, y in zip(out[n.replace('_target', '')].reshape(-1), S['st_' + n].reshape(-1))], dtype=object).reshape(S['st_' + n].shape)) for n in orc])
             ck.control("control.sac_tau_swapped", [c0 >= 0], core.abstract([wrong], bigq)[0])
@@ -278,11 +345,11 @@ def check_sac(ck):
         gate_names = [n for n in tr.out_names if (n.startswith("policy_") or n.startswith("opt_state_") or n.startswith("log_alpha") or n.startswith("alpha_opt_state")) and "space" not in n]
         same = {n: S["st_" + n] for n in gate_names if "st_" + n in S and tuple(S["st_" + n].shape) == tuple(out[n].shape)}
         if f > 1:
-            ck.prove(f"sac.actor_and_alpha_gate@{cfg}", A + [c0 % f != 0], conj([eq_arr(out[n], v) for n, v in same.items()]), replay=replay_generic(tr, S, it, same), timeout=120)
+            ck.prove(f"sac.actor_and_alpha_gate@{cfg}", A + [c0 % f != 0], conj([eq_arr(out[n], v) for n, v in same.items()]), replay=replay_generic(tr, S, it, same, real=real_gate), timeout=120)
             ck.witness(f"witness.sac_gate_closed@{cfg}", A + [c0 % f != 0])
         if not autotune:
             al = {n: v for n, v in same.items() if n.startswith("log_alpha") or n.startswith("alpha_opt_state")}
-            ck.prove(f"sac.no_autotune_alpha_fixed@{cfg}", A, conj([eq_arr(out[n], v) for n, v in al.items()]), replay=replay_generic(tr, S, it, al), timeout=120)
+            ck.prove(f"sac.no_autotune_alpha_fixed@{cfg}", A, conj([eq_arr(out[n], v) for n, v in al.items()]), replay=replay_generic(tr, S, it, al, real=real_alpha), timeout=120)
 
 
 def main():
